@@ -117,11 +117,18 @@ func (l defaultLogger) With(fs ...ContextField) Logger {
 	for _, f := range fs {
 		e = f(e)
 	}
+	// The parent's field buffer must not be appended to in place: loggers are
+	// derived from one parent concurrently (one per transaction) and events
+	// append to the buffer they start from, so spare capacity would be shared.
+	// An exactly sized copy makes every later append allocate.
+	fields := e.(*defaultEvent).fields
+	defaultFields := make([]byte, 0, len(l.defaultFields)+len(fields))
+	defaultFields = append(append(defaultFields, l.defaultFields...), fields...)
 	return defaultLogger{
 		printer:       l.printer,
 		factory:       l.factory,
 		level:         l.level,
-		defaultFields: append(l.defaultFields, e.(*defaultEvent).fields...),
+		defaultFields: defaultFields,
 	}
 }
 
